@@ -733,6 +733,24 @@ fn emit_iup(c: &IupCase, st: &mut Stats, cw: &mut CaseWriter, to_model: bool) {
         }
         Ok(Ok(out)) => {
             st.count("iup.ok");
+            // branch statistics per contour (phantom single-point contours excluded)
+            let mut start = 0;
+            let mut e2 = c.ends.clone();
+            e2.sort();
+            for &end in &e2 {
+                if end + 1 > start && end < c.deltas.len() {
+                    let sl = &c.deltas[start..=end];
+                    let o = &out[start..=end];
+                    if sl.iter().all(|d| *d == sl[0]) {
+                        st.count(if sl[0] == (0, 0) { "iup.contour_all_zero" } else { "iup.contour_all_equal_nonzero" });
+                    } else {
+                        st.count("iup.contour_general");
+                        let nreq = o.iter().filter(|d| d.required).count();
+                        st.count(if nreq == o.len() { "iup.contour_general_nothing_optional" } else { "iup.contour_general_some_optional" });
+                    }
+                }
+                start = start.max(end + 1);
+            }
             let nopt = out.iter().filter(|d| !d.required).count();
             st.add("iup.optional_deltas", nopt as u64);
             st.add("iup.required_deltas", (out.len() - nopt) as u64);
